@@ -51,6 +51,11 @@ type Step struct {
 	// ProposeChannel call has returned, while the channels are still being
 	// opened concurrently (only in cases with EarlyOpen)
 	Early bool `json:"early,omitempty"`
+	// Double: the responder's handler answers the request a second time:
+	// "rej-acc" (Reject, then Accept), "rej-rej", "acc-acc", or "acc|rej" (Accept
+	// in a goroutine while Reject is called from the handler).  The second
+	// answer is refused by the responder and must not have any effect.
+	Double string `json:"double,omitempty"`
 }
 
 // Case is a program of update proposals on 1-3 channels of one client pair.
@@ -105,6 +110,7 @@ func drawCase(t *rapid.T) Case {
 			DelayMs: []int{0, 0, 1, 5, 20}[rapid.IntRange(0, 4).Draw(t, "delay")],
 			With:    rapid.IntRange(0, 2).Draw(t, "with") == 0,
 			CtxEnds: rapid.IntRange(0, 4).Draw(t, "ctxends") == 0,
+			Double:  rapid.SampledFrom([]string{"", "", "", "", "", "", "", "", "rej-acc", "rej-rej", "acc-acc", "acc|rej"}).Draw(t, "double"),
 		}
 		// two thirds of the overlapping groups avoid a head-on collision (both
 		// parties proposing on one channel), which always ends in timeouts
@@ -145,6 +151,7 @@ type decision struct {
 	accept  bool
 	delay   time.Duration
 	ctxEnds bool
+	double  string
 }
 
 type result struct {
@@ -264,6 +271,29 @@ func runCase(c Case) *h.Outcome {
 				amu.Lock()
 				onAcc[accKey{u.State.ID, u.State.Version}] = cancel
 				amu.Unlock()
+			}
+			switch d.double {
+			case "rej-acc":
+				_ = r.Reject(ctx, "scenario says no")
+				_ = r.Accept(ctx)
+				return
+			case "rej-rej":
+				_ = r.Reject(ctx, "scenario says no")
+				_ = r.Reject(ctx, "scenario says no again")
+				return
+			case "acc-acc":
+				_ = r.Accept(ctx)
+				_ = r.Accept(ctx)
+				return
+			case "acc|rej":
+				done := make(chan struct{})
+				go func() { _ = r.Accept(ctx); close(done) }()
+				// the watchdog fires while the acceptance is under way (signing and
+				// sending take some hundred microseconds)
+				time.Sleep(time.Duration(50+100*(int(u.State.Version)%6)) * time.Microsecond)
+				_ = r.Reject(ctx, "watchdog")
+				<-done
+				return
 			}
 			if d.accept {
 				_ = r.Accept(ctx)
@@ -668,7 +698,7 @@ func runCase(c Case) *h.Outcome {
 			if decisions[ch.ID()] == nil {
 				decisions[ch.ID()] = map[channel.Index]decision{}
 			}
-			decisions[ch.ID()][ch.Idx()] = decision{accept: s.Accept, delay: time.Duration(s.DelayMs) * time.Millisecond, ctxEnds: s.CtxEnds}
+			decisions[ch.ID()][ch.Idx()] = decision{accept: s.Accept, delay: time.Duration(s.DelayMs) * time.Millisecond, ctxEnds: s.CtxEnds && s.Double == "", double: s.Double}
 		}
 		dmu.Unlock()
 		for _, si := range g {
